@@ -55,14 +55,6 @@ structure Opts where
   portability : Bool     -- severity.isEnabled(Severity::portability)
   inconclusive : Bool    -- certainty.isEnabled(Certainty::inconclusive)
   cpp14 : Bool           -- C++ translation unit with standards.cpp >= CPP14 (tooBigSignedBitwiseShiftError)
-  gradedShiftNegative : Bool := false
-                         -- not a setting: which variant of negativeBitwiseShiftError the tree has — false: the code as found
-                         -- (`Severity::error` always, F04a), true: after proposed/C04-shiftnegative-severity.diff (graded by
-                         -- errorSeverity() like every other value-based check); the check reads the variant off the source
-  gradedIndexVector : Bool := false
-                         -- not a setting either: false = arrayIndexError / negativeIndexError as found (severity and id taken from the
-                         -- one index value `index`, F04c), true = after proposed/C04-index-vector-severity.diff (error only when every
-                         -- index value has errorSeverity(), `…Cond` id when any has a condition)
   deriving DecidableEq, Repr, Inhabited
 
 structure Report where
@@ -223,27 +215,36 @@ def pickIndex : Option Value → List Value → Option Value
   | none, v :: rest => pickIndex (some v) rest
   | some i, v :: rest => pickIndex (some (if v.hasErrorPath then v else i)) rest
 
-/-- the body shared by `arrayIndexError` / `negativeIndexError` -/
-def indexVectorError (o : Opts) (idOk idCond : String) (indexes : List Value) : List Report :=
+/-- the body shared by `arrayIndexError` / `negativeIndexError`.  `graded = true` is the code of record (43eccce: `error` only when every
+    index value has errorSeverity(), the `…Cond` id when any has a condition); `graded = false` is the body before that commit (severity and id
+    taken from the one value `index`, F04c) and is kept for the regression theorem only. -/
+def indexVectorErrorV (graded : Bool) (o : Opts) (idOk idCond : String) (indexes : List Value) : List Report :=
   if indexes.any (fun v => !v.errorSeverity && !o.warning) then []
   else
     match pickIndex none indexes with
     | none => []
     | some index =>
-      if o.gradedIndexVector then
+      if graded then
         [⟨if indexes.any (·.cond) then idCond else idOk, sevOf (indexes.all (·.errorSeverity)), certOf index.isInconclusive⟩]
       else
         [⟨if index.cond then idCond else idOk, sevOf index.errorSeverity, certOf index.isInconclusive⟩]
 
-/-- checkbufferoverrun.cpp `arrayIndex` for `a[i1]…[ik]` (read or written, not under `&`) on an array with known dimensions ≥ 1;
-    per dimension its size and the values of the index token (all with bound Point) -/
-def arrayIndexN (o : Opts) (dims : List (Int × List Value)) : List Report :=
+def indexVectorError : Opts → String → String → List Value → List Report := indexVectorErrorV true
+
+def arrayIndexNV (graded : Bool) (o : Opts) (dims : List (Int × List Value)) : List Report :=
   (if (overrunIndexValues dims).2 then
-     indexVectorError o "arrayIndexOutOfBounds" "arrayIndexOutOfBoundsCond" (overrunIndexValues dims).1
+     indexVectorErrorV graded o "arrayIndexOutOfBounds" "arrayIndexOutOfBoundsCond" (overrunIndexValues dims).1
    else []) ++
   (if dims.any (fun d => (getValueLE o d.2 (-1)).isSome) then
-     indexVectorError o "negativeIndex" "negativeIndex" (dims.map fun d => (getValueLE o d.2 (-1)).getD unknownValue)
+     indexVectorErrorV graded o "negativeIndex" "negativeIndex" (dims.map fun d => (getValueLE o d.2 (-1)).getD unknownValue)
    else [])
+
+/-- checkbufferoverrun.cpp `arrayIndex` for `a[i1]…[ik]` (read or written, not under `&`) on an array with known dimensions ≥ 1;
+    per dimension its size and the values of the index token (all with bound Point) -/
+def arrayIndexN : Opts → List (Int × List Value) → List Report := arrayIndexNV true
+
+/-- `arrayIndex` with arrayIndexError / negativeIndexError as they were before 43eccce (regression theorem only) -/
+def arrayIndexNAsFound : Opts → List (Int × List Value) → List Report := arrayIndexNV false
 
 /-- one-dimensional array -/
 def arrayIndex (o : Opts) (size : Int) (vals : List Value) : List Report := arrayIndexN o [(size, vals)]
@@ -268,14 +269,20 @@ def shiftTooManyBits (o : Opts) (lhsbits : Int) (lhsSigned : Bool) (vals : List 
     else []
 
 /-- checkother.cpp `checkNegativeBitwiseShift` + `negativeBitwiseShiftError` for one shift outside `?:`;
-    `lvals`/`rvals` = the values of the operands, `lSigned`/`rSigned` = their valueType sign is SIGNED -/
-def shiftNegative (o : Opts) (lSigned rSigned : Bool) (lvals rvals : List Value) : List Report :=
+    `lvals`/`rvals` = the values of the operands, `lSigned`/`rSigned` = their valueType sign is SIGNED; `graded`: see below -/
+def shiftNegativeV (graded : Bool) (o : Opts) (lSigned rSigned : Bool) (lvals rvals : List Value) : List Report :=
   if o.portability && lSigned && (getValueLE o lvals (-1)).isSome then [⟨"shiftNegativeLHS", .portability, .normal⟩]
   else if rSigned then
     match getValueLE o rvals (-1) with
-    | some v => [⟨"shiftNegative", if o.gradedShiftNegative then sevOf v.errorSeverity else .error, .normal⟩]
+    | some v => [⟨"shiftNegative", if graded then sevOf v.errorSeverity else .error, .normal⟩]
     | none => []
   else []
+
+/-- the code of record (4fa5b48): the picked shift count is graded by errorSeverity() like in every other value-based check -/
+def shiftNegative : Opts → Bool → Bool → List Value → List Value → List Report := shiftNegativeV true
+
+/-- negativeBitwiseShiftError before 4fa5b48: `Severity::error` whatever value was picked (F04a; regression theorem only) -/
+def shiftNegativeAsFound : Opts → Bool → Bool → List Value → List Value → List Report := shiftNegativeV false
 
 /-- `Check::getMessageId(value, id)` -/
 def messageId (v : Value) (id safeId : String) : String :=
@@ -342,7 +349,7 @@ def decideSev (c : Checker) (v : Value) (inconclusiveCheck : Bool) (o : Opts) : 
     if !isEnabled o v false then none
     else if o.cpp14 then (if o.portability then some .portability else none)
     else some (sevOf v.errorSeverity)
-  | .shiftNegative => some (if o.gradedShiftNegative then sevOf v.errorSeverity else .error)
+  | .shiftNegative => some (sevOf v.errorSeverity)
   | .uninitvar =>
     if v.isInconclusive then none
     else if !isEnabled o v false then none
